@@ -391,8 +391,10 @@ func one(js []byte) {
 		rep.Div("harness", "cannot parse transition: "+err.Error(), js, nil)
 		return
 	}
-	n := atomic.AddInt64(&rep.N, 1)
-	will := t.Op.Op == "pub" && n%3 == 0 // a third of the publications go through OnWillPublish
+	atomic.AddInt64(&rep.N, 1)
+	// about a third of the publications go through OnWillPublish; chosen from the transition itself so that a replay
+	// of the stored transition takes the same path
+	will := t.Op.Op == "pub" && (len(t.Pre)+len(t.Subs)+len(t.Op.T)+int(t.Op.Node[len(t.Op.Node)-1]))%3 == 0
 	defer func() {
 		if r := recover(); r != nil {
 			rep.Div("panic:"+t.Op.Op, fmt.Sprintf("panic while replaying: %v", r), js, nil)
